@@ -134,3 +134,13 @@ try:
                  dropped=['decorators classmethod / lru_cache'], note='C-like command lines: exactly the -I and -L arguments go to the front')
 except ImportError:       # pragma: no cover
     pass
+
+# ---- the remaining readers: the LENGTH and EQUALITY of a command line are those of its eager meaning, whatever is still pending
+VIEWO = 'view(other._container, other.pre, other.post, other.needs_override_check)'
+REG.contract('C13', A, 'CompilerArgs.__len__', params={'self': CA},
+             ensures=[f'result == len({VIEW})'], modifies=MODS, floor=1,
+             note='len() counts the arguments of the eager meaning — not pending duplicates that the flush is going to drop (len(a) must equal len(list(a)))')
+REG.contract('C13', A, 'CompilerArgs.__eq__', variant='args', params={'self': CA, 'other': CA}, requires=['self is not other'],
+             ensures=[f'implies(self.compiler is other.compiler, result == seq_eq_from({VIEW}, {VIEWO}, 0))'],
+             modifies=MODS + ['other._container', 'other.pre', 'other.post', 'other.needs_override_check'], floor=1,
+             note='two argument lists of the same compiler are equal iff their eager meanings are — whichever of the two still has pending arguments (a == b iff b == a)')
